@@ -34,7 +34,8 @@ def ENCODED():
     import ethosu.vela.scheduler as sch
 
     return [wc.encode_weight_and_scale_tensor, wc.encode_bias, wc.core_deinterleave, wc.create_weight_compression_config,
-            h2n.create_weights, h2n.create_dma_op, sch.Scheduler.propose_weight_buffering]
+            h2n.create_weights, h2n.create_dma_op, sch.Scheduler.propose_weight_buffering, wc._prepare_scale_and_bias,
+            __import__("ethosu.vela.scaling", fromlist=["x"]).quantise_scale]
 
 
 class _Stream:
@@ -175,7 +176,8 @@ def encode(V, accel, slicing, block_depth):
         base_buf = V.int("buf_base", 0, 1 << 30)
         V.assume(z3.And(L(base_src) % 16 == 0, L(base_buf) % 16 == 0))
         wtens_addr = _Obj(address=base_src, encoded_ranges=rngs, mem_type=MemType.Permanent_NPU, purpose=wtens.purpose, src_tensor=None, name="w")
-        buf = _Obj(address=base_buf, mem_type=MemType.Scratch_fast, purpose=wtens.purpose, src_tensor=wtens_addr, name="buf", encoded_ranges={})
+        buf = _Obj(address=base_buf, mem_type=MemType.Scratch_fast, purpose=wtens.purpose, src_tensor=wtens_addr, name="buf", encoded_ranges={},
+                   storage_size=lambda i=i: dbs[i % 2])  # the SRAM buffer the scheduler creates for this parity: as large as its largest slice
         box = Box([0, 0, 0, slicing[i]], [1, 1, 1, slicing[i + 1]])
         with core.shims((h2n, {"int": core.IntShim})):
             dma = h2n.create_dma_op(_Obj(in_tensor=wtens_addr, out_tensor=buf, box=box), arch)
@@ -183,7 +185,8 @@ def encode(V, accel, slicing, block_depth):
         cl.append(("slice %d: DMA source/destination lengths agree and are 16-byte multiples" % i,
                    z3.And(L(dma.src.length) == L(dma.dest.length), L(dma.src.length) % 16 == 0)))
         cl.append(("slice %d: DMA fits the double buffer of the recorded size" % i, L(dma.dest.length) <= L(dbs[i % 2])))
-        cl.append(("slice %d: DMA reads the slice from the source tensor" % i, z3.And(L(dma.src.address) == L(base_src) + s0, L(dma.src.length) >= e0 - s0)))
+        cl.append(("slice %d: DMA reads exactly this slice from the source tensor (not the buffer's size: a smaller slice would be over-read past the tensor)" % i,
+                   z3.And(L(dma.src.address) == L(base_src) + s0, L(dma.src.length) == e0 - s0)))
         for r in ws + bs:
             cl.append(("slice %d: weight/scale range inside the double buffer" % i,
                        z3.And(L(r.address) >= L(base_buf), L(r.address) + L(r.length) <= L(base_buf) + L(dbs[i % 2]), L(r.address) % 16 == 0)))
@@ -453,7 +456,22 @@ def buffering(V, limit, standalone_scales, cascade):
     return cl
 
 
-FUNCS = {"buffering": buffering, "weight_ranges": weight_ranges, "codec_args": codec_args, "encode": encode, "cache": cache, "bias": bias, "bias_rejects": bias_rejects}
+def scale_values(V, **params):
+    """the (multiplier, shift) of each 10-byte scale record is the quantisation - full 31-bit form, or the reduced int16 form for int16 IFM with
+    int64 bias - of the reference per-channel scale (harness/c09.py prep_scales: real _prepare_scale_and_bias on symbolic float32 scales)"""
+    from harness import c09
+
+    return c09.prep_scales(V, **params)
+
+
+def scale_quantisation(V, **params):
+    """... and that quantisation is the TFLite reference multiplier for every positive normal scale (harness/c09.py qs)"""
+    from harness import c09
+
+    return c09.qs(V, **params)
+
+
+FUNCS = {"scale_values": scale_values, "scale_quantisation": scale_quantisation, "buffering": buffering, "weight_ranges": weight_ranges, "codec_args": codec_args, "encode": encode, "cache": cache, "bias": bias, "bias_rejects": bias_rejects}
 
 
 def instances(tier, seed):
@@ -482,6 +500,13 @@ def instances(tier, seed):
             for cascade in (0, 1):
                 out.append(dict(key="buffering/limit%d/standalone%d/cascade%d" % (limit, standalone, cascade), fn="buffering",
                                 params=dict(limit=limit, standalone_scales=standalone, cascade=cascade)))
+    from harness import c09
+
+    for inst in c09.instances(tier, seed):
+        if inst["fn"] == "prep_scales":
+            out.append(dict(key="scale_values/" + inst["key"], fn="scale_values", params=inst["params"]))
+        if inst["fn"] == "qs":
+            out.append(dict(key="scale_quantisation/" + inst["key"], fn="scale_quantisation", params=inst["params"], weight=100))
     out.append(dict(key="bias/pack", fn="bias", params={}))
     for w in ("bias_hi", "bias_lo", "scale", "shift", "neg_scale"):
         out.append(dict(key="bias_rejects/%s" % w, fn="bias_rejects", params=dict(which=w)))
